@@ -77,6 +77,21 @@ type Gate struct {
 	counts      map[string]int   // backend calls entered per owner key
 	faults      map[string]Fault // owner key -> fault to inject
 	dead        map[string]bool  // owner keys that crashed: every further call stops for ever
+	failNext    []FailWhen       // one-shot faults chosen by what the call is rather than by its number
+}
+
+// FailWhen: the next backend call of owner key Key whose operation is Op (and whose path ends in Suffix) fails once with ErrInjected,
+// not before NotBefore calls of that key have been made.
+type FailWhen struct {
+	Key, Op, Suffix string
+	NotBefore       int
+}
+
+// FailNext plans a one-shot injected error chosen by the kind of call.
+func (g *Gate) FailNext(f FailWhen) {
+	g.mu.Lock()
+	g.failNext = append(g.failNext, f)
+	g.mu.Unlock()
 }
 
 // Fault: at the At-th backend call (1-based, file-level calls included) of an owner, do Action instead.
@@ -307,6 +322,13 @@ func (g *Gate) enter(owner, op, path string, mut bool, fileOp bool) (ev Event, a
 		if act == Crash { // the whole logical process dies: its heartbeat goroutines too
 			g.dead[owner] = true
 			g.dead[owner+".hb"] = true
+		}
+	}
+	for i, f := range g.failNext {
+		if f.Key == key && f.Op == op && strings.HasSuffix(path, f.Suffix) && g.counts[key] >= f.NotBefore && !g.stopped && act == Proceed {
+			act = Fail
+			g.failNext = append(g.failNext[:i], g.failNext[i+1:]...)
+			break
 		}
 	}
 	if g.dead[key] && !g.stopped {
